@@ -1,2 +1,2 @@
 From LV Require Import Ledger.Events Ledger.Bulk.
-NAMES trace_of trace_from check core_bulk core_sched respond tag_seq bres_ok
+NAMES trace_of trace_from check core_bulk core_sched respond tag_seq bres_ok schema_bulk schema_sched sbres_ok
